@@ -2,14 +2,16 @@
 """copy a confirmed seeded change from /tmp/seed/<ID>/out into /verif/seeded/<ID>-<V>/"""
 import json, os, shutil, sys, re
 ID, V = sys.argv[1], sys.argv[2]
-out = '/tmp/seed/%s/out' % ID
+BASE = os.environ.get('SEEDBASE', '/tmp/seed')
+NAME = sys.argv[3] if len(sys.argv) > 3 else V
+out = '%s/%s/out' % (BASE, ID)
 log = open('%s/%s_confirm.log' % (out, V)).read()
 m = re.search(r'SUMMARY id=\S+ v=\S+ suite_rc=(\d+) demo_with_rc=(\d+) demo_without_rc=(\d+)', log)
 assert m, 'no summary'
 suite, dw, do = map(int, m.groups())
 assert suite == 0 and dw != 0 and do == 0, (suite, dw, do)
 a = json.load(open('%s/%s.json' % (out, V)))
-d = '/verif/seeded/%s-%s' % (ID, V)
+d = '/verif/seeded/%s-%s' % (ID, NAME)
 os.makedirs(d, exist_ok=True)
 shutil.copy('%s/%s.patch' % (out, V), d + '/patch.diff')
 demo = a.get('demo_path_in_repo', 'tests/seeded_demo_%s.rs' % V.lower())
@@ -24,7 +26,7 @@ meta = {
     'demo': {'file': os.path.basename(demo), 'place_at': demo,
              'run': 'cargo test --offline%s --test %s' % (feat, os.path.splitext(os.path.basename(demo))[0])},
     'confirmed_by_me': {
-        'where': 'scratch worktree /tmp/seed/%s/wt (since removed)' % ID,
+        'where': 'scratch worktree %s/%s/wt (since removed)' % (BASE, ID),
         'ran': ['git apply patch.diff', 'cargo test --offline  (whole suite: rc=%d)' % suite,
                 'demo with change: rc=%d (fails)' % dw, 'git checkout -- src; demo without change: rc=%d (passes)' % do],
     },
